@@ -128,6 +128,8 @@ func main() {
 			r := w.runHarness(h, *mode, time.Hour)
 			printResult(r)
 		}
+	case "selftest":
+		os.Exit(runSelftest(root, *repo, *workers, *verbose))
 	case "replay":
 		if len(pos) != 1 {
 			fmt.Fprintln(os.Stderr, "replay needs a file")
@@ -475,6 +477,7 @@ func writeEvidence(root, prop, tier string, seed int, meta *PropMeta, w *World, 
 			"inconclusive":              inconclusive,
 			"per_harness":               perH,
 			"load_s":                    round2(w.loadTime.Seconds()),
+			"translator_selftest":       readSelftest(root),
 		},
 	}
 	path := filepath.Join(root, "evidence", prop+".json")
@@ -598,4 +601,84 @@ func (r *replayer) run(path string, timeout time.Duration) (string, error) {
 		return "crash: " + strings.ReplaceAll(tail, "\n", " | "), nil
 	}
 	return "no-result", fmt.Errorf("no REPLAY-RESULT line in output: %s", txt)
+}
+
+// runSelftest: translator validation. The harness H_ST_records pushes the repository's own test values through
+// the codec; the byte strings recorded under the symbolic executor must equal those recorded natively.
+func runSelftest(root, repo string, workers int, verbose bool) int {
+	w := mustLoad(root, repo, "quick", workers, verbose)
+	w.stepBudget = 50_000_000
+	w.fixedMapOrder = false
+	r := w.runHarness("H_ST_records", "", 10*time.Minute)
+	if len(r.Unsupported) > 0 || len(r.Violations) > 0 || r.Kinds["done"] != 1 {
+		printResult(r)
+		fmt.Println("SELFTEST FAILED: the engine could not execute the self-test harness")
+		return 3
+	}
+	rp := newReplayer(root, repo)
+	defer rp.cleanup()
+	if err := rp.build(); err != nil {
+		fmt.Println("SELFTEST FAILED:", err)
+		return 3
+	}
+	path := filepath.Join(root, ".work", "selftest-input.json")
+	writeJSON(path, ReplayFile{Property: "selftest", Harness: "H_ST_records", Tier: "quick"})
+	cmd := exec.Command(rp.bin, "-test.run", "^TestVerifReplay$", "-test.count=1")
+	cmd.Dir = repo
+	cmd.Env = append(os.Environ(), "VERIF_REPLAY="+path)
+	out, _ := cmd.CombinedOutput()
+	native := map[string]string{}
+	var order []string
+	for _, l := range strings.Split(string(out), "\n") {
+		if strings.HasPrefix(l, "REPLAY-RECORD ") {
+			f := strings.SplitN(strings.TrimPrefix(l, "REPLAY-RECORD "), " ", 2)
+			v := ""
+			if len(f) > 1 {
+				v = f[1]
+			}
+			native[f[0]] = v
+			order = append(order, f[0])
+		}
+	}
+	engine := map[string]string{}
+	for _, l := range r.Records {
+		f := strings.SplitN(l, " ", 2)
+		v := ""
+		if len(f) > 1 {
+			v = f[1]
+		}
+		engine[f[0]] = v
+	}
+	bad := 0
+	for _, k := range order {
+		if e, ok := engine[k]; !ok || e != native[k] {
+			bad++
+			if bad <= 10 {
+				fmt.Printf("SELFTEST MISMATCH %s\n  native: %.200s\n  engine: %.200s\n", k, native[k], e)
+			}
+		}
+	}
+	if len(order) == 0 || len(engine) != len(native) {
+		fmt.Printf("SELFTEST FAILED: %d native records, %d engine records\n", len(native), len(engine))
+		return 3
+	}
+	if bad > 0 {
+		fmt.Printf("SELFTEST FAILED: %d of %d records differ between the symbolic executor and the native build\n", bad, len(order))
+		return 3
+	}
+	fmt.Printf("SELFTEST OK: %d records identical under the symbolic executor and the native build (%d interpreted steps)\n", len(order), r.MaxSteps)
+	writeJSON(filepath.Join(root, ".work", "selftest.json"), map[string]interface{}{"records": len(order), "steps": r.MaxSteps, "ok": true})
+	return 0
+}
+
+func readSelftest(root string) interface{} {
+	b, err := os.ReadFile(filepath.Join(root, ".work", "selftest.json"))
+	if err != nil {
+		return "not run in this work directory (./verif selftest)"
+	}
+	var v interface{}
+	if json.Unmarshal(b, &v) != nil {
+		return "unreadable"
+	}
+	return v
 }
